@@ -643,3 +643,15 @@ Theorem C01_no_resume_examples :
   /\ outcome_kind (parse_top stale_cmd [[112]; [45; 83; 120]]) = Some None.
 Proof. exact no_resume_examples. Qed.
 Print Assumptions C01_no_resume_examples.
+
+(** observation (not a violation: the property says "except"): under error-ignoring a help request inside a subcommand
+    (`p -Sh`, `p s --help`) yields matches -- [parse_subcommand] drops every error of the child level; without the setting the
+    same lines give DisplayHelp.  Same on the real crate (corpus/C01/parse-ignore-errors.round5.cases). *)
+Theorem C01_ignore_errors_swallows_help_in_subcommand :
+  outcome_kind (parse_top ign_cmd [[112]; [45; 83; 104]]) = Some None
+  /\ outcome_kind (parse_top ign_cmd [[112]; [115]; [45; 45; 104; 101; 108; 112]]) = Some None
+  /\ outcome_kind (parse_top (ign_cmd <| c_gset := settings_none |>) [[112]; [45; 83; 104]]) = Some (Some EDisplayHelp)
+  /\ outcome_kind (parse_top (ign_cmd <| c_gset := settings_none |>) [[112]; [115]; [45; 45; 104; 101; 108; 112]])
+     = Some (Some EDisplayHelp).
+Proof. exact ignore_errors_swallows_help_in_subcommand. Qed.
+Print Assumptions C01_ignore_errors_swallows_help_in_subcommand.
